@@ -57,7 +57,9 @@ def apply(obj, op, cfg):
             obj.fluid, obj.pressure_initial = tables.fluid(table, p_i), p_i
         return ("set", obj.pressure_initial)
     if op == "setP":
-        obj.pressure_fracface = cfg[2] if obj.pressure_fracface != cfg[2] else 0.5 * cfg[2]
+        cur = obj.pressure_fracface
+        at_base = np.ndim(cur) == 0 and cur == cfg[2]
+        obj.pressure_fracface = 0.5 * cfg[2] if at_base else cfg[2]
         return ("set", obj.pressure_fracface)
     try:
         if op in SIM_OPS:
